@@ -13,8 +13,9 @@ APP = 'pysph/solver/application.py'
 SOL = 'pysph/solver/solver.py'
 NB = 'pysph/base/nnps_base.pyx'
 GPU_ONLY = {'gpu_octree'}
-COMMON_KW = {'dim': 'solver.dim', 'particles': 'self.particles', 'radius_scale': 'kernel.radius_scale', 'domain': 'self.domain',
-             'cache': 'cache', 'sort_gids': 'options.sort_gids'}
+# what every constructor call must be given, with the locals of _configure_solver substituted (<kernel> = the local that holds solver.kernel)
+COMMON_KW = {'dim': 'self.solver.dim', 'particles': 'self.particles', 'radius_scale': '<kernel>.radius_scale', 'domain': 'self.domain',
+             'cache': 'self.options.cache_nnps', 'sort_gids': 'self.options.sort_gids'}
 
 
 def U(n):
@@ -58,9 +59,15 @@ def rule_options(chk, ci, classes):
     if not choices:
         raise AnalysisError('--nnps option vanished')
     cs = M.find_func(acls, '_configure_solver')
+    from verif_static import norm as N2
+    ldefs = N2.local_defs([cs])
+
+    def inl(e):
+        return compact(N2.inline(e, ldefs))
+    kernel_names = sorted(set(a.targets[0].id for a in ast.walk(cs) if isinstance(a, ast.Assign) and isinstance(a.targets[0], ast.Name) and inl(a.value) == 'self.solver.kernel'))
     branches = {}
     for i in ast.walk(cs):
-        if isinstance(i, ast.If) and isinstance(i.test, ast.Compare) and compact(i.test.left) == 'options.nnps' and \
+        if isinstance(i, ast.If) and isinstance(i.test, ast.Compare) and inl(i.test.left) == 'self.options.nnps' and \
                 isinstance(i.test.ops[0], ast.Eq) and M.const_str(i.test.comparators[0]):
             nm = M.const_str(i.test.comparators[0])
             ctor = [c for b in i.body for c in M.calls(b) if (M.call_name(c) or '').endswith('NNPS')]
@@ -84,12 +91,11 @@ def rule_options(chk, ci, classes):
             continue
         rel, cls = classes[cname]
         params = ctor_params(ci, rel, cls)
-        from verif_static import norm as N2
-        ldefs = N2.local_defs([cs])
-        kws = dict((k.arg, compact(N2.inline(k.value, ldefs))) for k in ctor.keywords)
+        kws = dict((k.arg, inl(k.value)) for k in ctor.keywords)
         for k, want in sorted(COMMON_KW.items()):
-            want = compact(N2.inline(ast.parse(want, mode='eval').body, ldefs))
-            chk.decide(kws.get(k) == want, 'nnps-constructor-agreement', '%s:%s' % (nm, k), node=ctor, file=APP, func='Application._configure_solver',
+            wants = [want.replace('<kernel>', kn) for kn in kernel_names + ['self.solver.kernel']]
+            want = wants[0]
+            chk.decide(kws.get(k) in wants, 'nnps-constructor-agreement', '%s:%s' % (nm, k), node=ctor, file=APP, func='Application._configure_solver',
                        detail_bad='%s(%s=%s): every algorithm must receive %s=%s, otherwise runs differ by algorithm' % (cname, k, kws.get(k), k, want),
                        detail_ok='%s=%s' % (k, want))
         unknown = [k for k in kws if params is not None and k not in params]
@@ -98,9 +104,6 @@ def rule_options(chk, ci, classes):
                    detail_bad='%s.__init__%s does not accept %s' % (cname, tuple(params or ()), unknown), detail_ok='all keywords accepted by %s.__init__' % cname)
     # cache option
     g = C.build_cfg(cs)
-    ca = [a for a in ast.walk(cs) if isinstance(a, ast.Assign) and U(a.targets[0]) == 'cache']
-    chk.decide(bool(ca) and compact(ca[0].value) == 'options.cache_nnps', 'nnps-constructor-agreement', 'cache-from-option', node=ca[0] if ca else cs, file=APP,
-               func='Application._configure_solver', detail_bad='cache is not options.cache_nnps', detail_ok='cache = options.cache_nnps')
     return [M.call_name(c).split('.')[-1] for nm, (n_, c) in branches.items() if nm not in GPU_ONLY and c is not None]
 
 
@@ -285,12 +288,13 @@ def rule_reorder(chk):
     solve = M.find_method(sol, 'Solver', 'solve')
     calls = [c for c in M.calls(solve) if M.call_name(c) == 'self.reorder_particles']
     from verif_static import norm as N
-    gtests = [M.enclosing(c, (ast.If,)).test for c in calls if M.enclosing(c, (ast.If,)) is not None]
+    ld_ = N.local_defs(solve.body)         # the frequency may be read through a local
+    gtests = [N.inline(M.enclosing(c, (ast.If,)).test, ld_) for c in calls if M.enclosing(c, (ast.If,)) is not None]
     guards = [compact(x) for x in gtests]
 
     def has(t, text):
         return any(N.same(x, text) for x in ast.walk(t) if isinstance(x, (ast.Compare, ast.BoolOp)))
-    chk.decide(len(calls) == 2 and any(N.same(t, 'reorder_freq > 0') for t in gtests) and any(has(t, 'self.count % reorder_freq == 0') for t in gtests), 'reordering', 'schedule',
+    chk.decide(len(calls) == 2 and any(N.same(t, 'self.reorder_freq > 0') for t in gtests) and any(has(t, 'self.count % self.reorder_freq == 0') for t in gtests), 'reordering', 'schedule',
                node=solve, file=SOL, func='Solver.solve', detail_bad='re-ordering guards: %s' % guards, detail_ok='once at start and every reorder_freq iterations')
     rp = M.find_method(sol, 'Solver', 'reorder_particles')
     from verif_static import paths as PT
